@@ -289,16 +289,10 @@ class Methods:
                 return [(st, st.alloc(SetObj(items=(), frozen=frozen)))]
             if isinstance(et, tuple) and et[0] == "tuple":
                 raise Unsupported("set of symbolic tuples")
-            S = ex.fresh(st, "set", ("set", et))
             x = z3.Const(f"x!ts{fresh_id()}", m.sort(et))
             i = z3.Int(f"i!ts{fresh_id()}")
-            st.assume(
-                z3.ForAll(
-                    [x],
-                    z3.Select(S.term, x) == z3.Exists([i], z3.And(0 <= i, i < n, el(i).term == x)),
-                )
-            )
-            return [(st, st.alloc(SetObj(sv=S, frozen=frozen)))]
+            term = z3.Lambda([x], z3.Exists([i], z3.And(0 <= i, i < n, el(i).term == x)))
+            return [(st, st.alloc(SetObj(sv=SV(term, ("set", et)), frozen=frozen)))]
         raise Unsupported(f"set() of {v!r}")
 
     def isinstance_(self, st, v, cls):
